@@ -1,4 +1,161 @@
-import CosetModel.Api
+/-
+  C12 — no map handled by the crate ever carries the same label twice.
+-/
+import CosetProofs.KeyLoop
+import CosetProofs.HeaderFields
 namespace Coset.Props.C12
+open Coset
+
+/-- the labels denoted by the keys of a wire map (`18 01` and `01`, or differently chunked texts, denote one label:
+    this is a function of the parsed *value*, not of the bytes). -/
+def labelsOf (m : List (Value × Value)) : Res (List Label) := keyLabels m
+
+/-- decode, header maps: an accepted map has keys that all denote labels, pairwise distinct. -/
+theorem header_accepts_only_distinct (fuel d : Nat) (m : List (Value × Value)) (h : Header)
+    (hok : Header.fromValue fuel d (.map m) = .ok h) : ∃ ls, labelsOf m = .ok ls ∧ ls.Nodup := by
+  cases fuel with
+  | zero => simp [Header.fromValue] at hok
+  | succ f =>
+    simp only [Header.fromValue, tryAsMap] at hok
+    obtain ⟨ls, hl, hfr, _⟩ := (headerLoop_ok_iff _ _ m _ _ _).mp hok
+    exact ⟨ls, hl, hfr.1⟩
+
+/-- contrapositive form: a header map in which two keys denote the same label is never accepted. -/
+theorem header_dup_rejected (fuel d : Nat) (m : List (Value × Value)) (ls : List Label) (hl : labelsOf m = .ok ls) (hdup : ¬ ls.Nodup) :
+    ∀ h, Header.fromValue fuel d (.map m) ≠ .ok h := by
+  intro h hok
+  obtain ⟨ls', hl', hnd⟩ := header_accepts_only_distinct fuel d m h hok
+  rw [hl] at hl'; simp at hl'; subst hl'; exact hdup hnd
+
+/-- … at every nesting position: the conversions of signatures, recipients, messages and protected byte strings all go through
+    `Header.fromValue`, so the statement above covers them (shown here for the protected bstr and the signature). -/
+theorem protected_dup_rejected (fuel d : Nat) (data : Bytes) (m : List (Value × Value)) (ls : List Label)
+    (hne : data ≠ []) (hparse : readToValue data = .ok (.map m)) (hl : labelsOf m = .ok ls) (hdup : ¬ ls.Nodup) :
+    ∀ p, ProtectedHeader.fromBstr fuel d (.bytes data) ≠ .ok p := by
+  intro p hok
+  cases fuel with
+  | zero => simp [ProtectedHeader.fromBstr] at hok
+  | succ f =>
+    have : data.isEmpty = false := by cases data <;> simp_all
+    simp only [ProtectedHeader.fromBstr, tryAsBytes, this, hparse] at hok
+    cases hh : Header.fromValue f d (.map m) with
+    | ok h => exact header_dup_rejected f d m ls hl hdup h hh
+    | err e => simp [hh] at hok
+    | panic q => simp [hh] at hok
+
+/-- error kind: when everything before the second occurrence is acceptable and the repeated key denotes a label,
+    the result is `DuplicateMapKey`, whatever the value under the repeated key. -/
+theorem header_dup_error_kind (d : Nat) (sf : Value → Res CoseSignature) (p q : List (Value × Value)) (k x : Value) (l : Label)
+    (lp : List Label) (hp : Header) (hlp : labelsOf p = .ok lp) (hnd : lp.Nodup)
+    (hfold : foldRes (headerStep d sf) (lp.zip (p.map (·.2))) Header.default = .ok hp)
+    (hk : Label.fromValue k = .ok l) (hmem : l ∈ lp) :
+    headerLoop d sf (p ++ (k, x) :: q) Header.default [] = .err .duplicateMapKey := by
+  rw [headerLoop_eq_gen]
+  exact genLoop_dup Label.fromValue Label.cmp (headerStep d sf) (fun _ => True) label_loop_hyps.1 label_loop_hyps.2
+    p Header.default hp [] lp k x l q (by simp) hlp ⟨hnd, by simp⟩ hfold hk (by simpa using hmem)
+
+/-- the literal reading "always the duplicate-key error, even if an earlier pair is itself malformed" is not what sequential
+    validation gives: `{1: h'', 1: 0}` fails on the first pair (alg must be int/tstr) before the duplicate is met. -/
+example : (hdrFromValue (.map [(.int 1, .bytes []), (.int 1, .int 0)])).errKind? = some .unexpectedItem := by decide +kernel
+
+/-- decode, COSE_Key. -/
+theorem key_accepts_only_distinct (m : List (Value × Value)) (k : CoseKey) (hok : CoseKey.fromValue (.map m) = .ok k) :
+    ∃ ls, labelsOf m = .ok ls ∧ ls.Nodup := by
+  simp only [CoseKey.fromValue, tryAsMap] at hok
+  cases hl : keyLoop m CoseKey.default [] with
+  | ok k1 =>
+    rw [keyLoop_eq_gen] at hl
+    obtain ⟨ls, hls, hfr, _⟩ := (genLoop_ok_iff Label.fromValue Label.cmp keyStep (fun _ => True) label_loop_hyps.1 label_loop_hyps.2
+      m CoseKey.default k1 [] (by simp)).mp hl
+    exact ⟨ls, hls, hfr.1⟩
+  | err e => simp [hl] at hok
+  | panic p => simp [hl] at hok
+
+theorem key_dup_error_kind (p q : List (Value × Value)) (k x : Value) (l : Label) (lp : List Label) (kp : CoseKey)
+    (hlp : labelsOf p = .ok lp) (hnd : lp.Nodup) (hfold : foldRes keyStep (lp.zip (p.map (·.2))) CoseKey.default = .ok kp)
+    (hk : Label.fromValue k = .ok l) (hmem : l ∈ lp) :
+    CoseKey.fromValue (.map (p ++ (k, x) :: q)) = .err .duplicateMapKey := by
+  have := genLoop_dup Label.fromValue Label.cmp keyStep (fun _ => True) label_loop_hyps.1 label_loop_hyps.2
+    p CoseKey.default kp [] lp k x l q (by simp) hlp ⟨hnd, by simp⟩ hfold hk (by simpa using hmem)
+  simp [CoseKey.fromValue, tryAsMap, keyLoop_eq_gen, this]
+
+/-! ### encode side -/
+/-- the `seen` loop of `Header::to_cbor_value` / `CoseKey::to_cbor_value`: it fails on a repeated extra label and on an
+    extra label already emitted for a populated typed field; when it succeeds the appended keys are distinct from all earlier ones. -/
+theorem restToPairs_ok (rest : List (Label × Value)) : ∀ (seen : List Label) (acc m : List (Value × Value)),
+    restToPairs rest seen acc = .ok m →
+      (rest.map (·.1)).Nodup ∧ (∀ l ∈ rest.map (·.1), l ∉ seen) ∧
+      m = acc ++ rest.map (fun p => ((match p.1 with | .int i => Value.int i | .text t => Value.text t), p.2)) := by
+  induction rest with
+  | nil => intro seen acc m h; simp [restToPairs] at h; subst h; simp
+  | cons lv rest ih =>
+    intro seen acc m h
+    obtain ⟨l, v⟩ := lv
+    simp only [restToPairs, setContains_label] at h
+    by_cases hin : l ∈ seen
+    · simp [hin] at h
+    · simp only [hin, decide_false] at h
+      cases l with
+      | int i =>
+        simp only [Label.toValue] at h
+        obtain ⟨h1, h2, h3⟩ := ih _ _ _ h
+        refine ⟨?_, ?_, ?_⟩
+        · simp only [List.map_cons, List.nodup_cons]; exact ⟨fun hm => h2 _ hm (by simp), h1⟩
+        · intro x hx; simp only [List.map_cons, List.mem_cons] at hx
+          rcases hx with rfl | hx
+          · exact hin
+          · intro hs; exact h2 x hx (by simp [hs])
+        · rw [h3]; simp
+      | text t =>
+        simp only [Label.toValue] at h
+        obtain ⟨h1, h2, h3⟩ := ih _ _ _ h
+        refine ⟨?_, ?_, ?_⟩
+        · simp only [List.map_cons, List.nodup_cons]; exact ⟨fun hm => h2 _ hm (by simp), h1⟩
+        · intro x hx; simp only [List.map_cons, List.mem_cons] at hx
+          rcases hx with rfl | hx
+          · exact hin
+          · intro hs; exact h2 x hx (by simp [hs])
+        · rw [h3]; simp
+
+/-- two equal extra labels, or an extra label equal to an already emitted typed label: encoding fails with `DuplicateMapKey`. -/
+theorem restToPairs_dup (rest : List (Label × Value)) (seen : List Label) (acc : List (Value × Value))
+    (h : ¬ ((rest.map (·.1)).Nodup ∧ ∀ l ∈ rest.map (·.1), l ∉ seen)) : restToPairs rest seen acc = .err .duplicateMapKey := by
+  induction rest generalizing seen acc with
+  | nil => simp at h
+  | cons lv rest ih =>
+    obtain ⟨l, v⟩ := lv
+    simp only [restToPairs, setContains_label]
+    by_cases hin : l ∈ seen
+    · simp [hin]
+    · simp only [hin, decide_false]
+      have hn : ¬ ((rest.map (·.1)).Nodup ∧ ∀ x ∈ rest.map (·.1), x ∉ seen ++ [l]) := by
+        intro ⟨h1, h2⟩
+        apply h
+        refine ⟨?_, ?_⟩
+        · simp only [List.map_cons, List.nodup_cons]; exact ⟨fun hm => h2 _ hm (by simp), h1⟩
+        · intro x hx; simp only [List.map_cons, List.mem_cons] at hx
+          rcases hx with rfl | hx
+          · exact hin
+          · intro hs; exact h2 x hx (by simp [hs])
+      cases l <;> simp only [Label.toValue] <;> exact ih _ _ hn
+
+/-- ClaimsSet: encoding does NOT check (the crate's own test `test_cwt_dup_claim` pins this) — known finding D2-claims. -/
+theorem claims_encode_dup_refuted :
+    toVec ClaimsSet.toValue ⟨none, none, none, none, none, none, none, [(.assigned Gen.idx_CwtClaimName_Cnf, .null), (.assigned Gen.idx_CwtClaimName_Cnf, .int 1)]⟩
+      = .ok [0xa2, 0x08, 0xf6, 0x08, 0x01] := by decide +kernel
+
+/-- non-vacuity: `{4: h'01', 4: h'02'}` (dup) and `{1: -7, 0x1801: 0}` — same label in two encodings, equal after parsing. -/
+example : (hdrFromValue (.map [(.int 4, .bytes [1]), (.int 4, .bytes [2])])).errKind? = some .duplicateMapKey := by decide +kernel
+example : (fromSlice hdrFromValue [0xa2, 0x01, 0x26, 0x18, 0x01, 0x00]).errKind? = some .duplicateMapKey := by decide +kernel
+
+#print axioms header_accepts_only_distinct
+#print axioms header_dup_rejected
+#print axioms protected_dup_rejected
+#print axioms header_dup_error_kind
+#print axioms key_accepts_only_distinct
+#print axioms key_dup_error_kind
+#print axioms restToPairs_ok
+#print axioms restToPairs_dup
+#print axioms claims_encode_dup_refuted
 
 end Coset.Props.C12
